@@ -3,6 +3,7 @@
    independent transition checker (harness/propcheck.py c03). *)
 From Coq Require Import ZArith List Bool.
 From V Require Import Model.Num Model.Status Model.Live Gen.StatusC Proofs.LiveP.
+From V Require Model.Sim Model.SimLoop Proofs.SimResetP.
 Open Scope Z_scope.
 
 (* guards: a cancel / update / replace is accepted only on an order resting Executable with a known bet id; otherwise the state is
@@ -48,6 +49,17 @@ Qed.
 (* a control refusing a request leaves the placed order alone (since the repair of F-C02-1, fix: commit 2b78b6a) *)
 Theorem C03_refusal_leaves_order : forall s n, lstep s (LRefused n) = s.
 Proof. reflexivity. Qed.
+
+(* simulation (Model/SimLoop.v exec_pkg): the answer to a cancel / update / replace - SUCCESS or FAILURE, and the failed placement leg of
+   a replace - goes through reset_order, which leaves an order that completed during the latency window as it is.  On the pinned tree
+   these branches called order.executable() unconditionally (findings F-C03-1, F-C03-3); repaired in /repo. *)
+Theorem C03_sim_answer_never_reopens : forall cs now o, Sim.so_status o = SExecComplete -> SimLoop.reset_order cs now o = o.
+Proof. exact SimResetP.reset_order_keeps_complete. Qed.
+Theorem C03_sim_answer_log : forall cs now o,
+  Sim.so_log (SimLoop.reset_order cs now o) = Sim.so_log o \/
+  (Sim.so_status o <> SExecComplete /\ Sim.so_log (SimLoop.reset_order cs now o) = Sim.so_log o ++ [SExecutable]).
+Proof. exact SimResetP.reset_order_log. Qed.
+Print Assumptions C03_sim_answer_log.
 
 (* non-vacuity *)
 Example C03_example : let s := lrun (lstate0 COMPLETE_STATUS) [LPlace 0 0 0 101 500 200 false; LResponsePlace [0] [PSuccess 0 (Some 7001) 0]; LReq 0 0 0] in
